@@ -67,6 +67,15 @@ type Exchange struct {
 	// body; the client holds back the second half of the body until it has the
 	// response. The proxy must still consume that rest to keep the connection framed.
 	Early bool `json:"early,omitempty"`
+	// ResTEBodiless: a response that has no body by definition (to HEAD, a 304)
+	// nevertheless announces "Transfer-Encoding: chunked" - what servers that
+	// generate pages dynamically send, and RFC 7230 3.3.1 allows. No body bytes follow.
+	ResTEBodiless bool `json:"res_te_bodiless,omitempty"`
+	// DelayMs: the origin takes this long to produce its response.
+	DelayMs int `json:"delay_ms,omitempty"`
+	// Scheme of an absolute-form target; "" = http. "https" is only generated
+	// together with Case.TLSOrigin (the origin then speaks TLS).
+	Scheme string `json:"scheme,omitempty"`
 }
 
 // Case is a script of exchanges on one client connection.
@@ -81,6 +90,13 @@ type Case struct {
 	// Shaped: the proxy is served on a trafficshape.Listener without any shape
 	// configured; the relay must behave exactly as on a plain listener.
 	Shaped bool `json:"shaped,omitempty"`
+	// HalfClose: the client shuts down the sending direction of its connection
+	// right after the last request is written (FIN) and goes on reading - every
+	// request it sent is still owed its response.
+	HalfClose bool `json:"half_close,omitempty"`
+	// TLSOrigin: the origin is reached over TLS and every request names it in
+	// absolute-form with the scheme https (no CONNECT, no MITM involved).
+	TLSOrigin bool `json:"tls_origin,omitempty"`
 }
 
 // Sub is the script of one additional concurrent connection.
@@ -88,6 +104,19 @@ type Sub struct {
 	Exchanges []Exchange `json:"exchanges"`
 	Mode      string     `json:"mode"`
 	Batch     int        `json:"batch,omitempty"`
+	HalfClose bool       `json:"half_close,omitempty"`
+}
+
+// headNoLength: a HEAD exchange whose origin response carries neither a
+// Content-Length nor a Transfer-Encoding field.
+func (e *Exchange) headNoLength() bool {
+	if e.Method != "HEAD" {
+		return false
+	}
+	if e.Status == 204 || e.Status == 304 {
+		return !(e.Status == 304 && e.ResTEBodiless)
+	}
+	return e.ResFrame != "cl" && !e.ResTEBodiless
 }
 
 func (e *Exchange) closeMarked() bool {
@@ -143,7 +172,11 @@ func (e *Exchange) wireRequest(id string) []byte {
 	}
 	switch e.Form {
 	case "absolute":
-		fmt.Fprintf(&b, "%s http://%s%s %s\r\n", e.Method, e.Host, e.Target, proto)
+		scheme := "http"
+		if e.Scheme != "" {
+			scheme = e.Scheme
+		}
+		fmt.Fprintf(&b, "%s %s://%s%s %s\r\n", e.Method, scheme, e.Host, e.Target, proto)
 	case "asterisk":
 		fmt.Fprintf(&b, "%s * %s\r\n", e.Method, proto)
 	default:
@@ -210,10 +243,15 @@ func (e *Exchange) wireResponse() []byte {
 	body := e.resBody()
 	switch {
 	case e.Status == 204 || e.Status == 304:
+		if e.Status == 304 && e.ResTEBodiless {
+			b.WriteString("Transfer-Encoding: chunked\r\n")
+		}
 		b.WriteString("\r\n")
 	case e.Method == "HEAD":
 		if e.ResFrame == "cl" {
 			fmt.Fprintf(&b, "Content-Length: %d\r\n", e.ResSize)
+		} else if e.ResTEBodiless {
+			b.WriteString("Transfer-Encoding: chunked\r\n")
 		}
 		b.WriteString("\r\n")
 	case e.ResFrame == "cl":
@@ -356,6 +394,12 @@ func genExchange(t *rapid.T, maxBody int, last bool) Exchange {
 	if e.ResFrame == "close" && e.bodiless() {
 		e.ResFrame = "none"
 	}
+	if (e.Method == "HEAD" || e.Status == 304) && e.Status != 204 && e.ResFrame == "chunked" {
+		e.ResTEBodiless = rapid.Bool().Draw(t, "res_te_bodiless")
+	}
+	if rapid.IntRange(0, 19).Draw(t, "slow_origin") == 0 {
+		e.DelayMs = rapid.SampledFrom([]int{1, 5, 20}).Draw(t, "delay_ms")
+	}
 	if last {
 		switch rapid.IntRange(0, 9).Draw(t, "closer") {
 		case 0:
@@ -450,6 +494,25 @@ func genCase(t *rapid.T) Case {
 		// probe: the connection must still be usable
 		c.Exchanges = append(c.Exchanges, Exchange{Method: "GET", Form: "origin", Host: "origin.test", Target: "/probe", ReqFrame: "none", Status: 200, ResFrame: "cl", ResSize: 5, ResSeed: 99})
 	}
+	if rapid.IntRange(0, 7).Draw(t, "half_close") == 0 {
+		// the FIN travels right behind the last request; the origin may still be busy with it
+		c.HalfClose = true
+		c.Exchanges[len(c.Exchanges)-1].DelayMs = rapid.SampledFrom([]int{0, 2, 10, 30}).Draw(t, "half_close_delay_ms")
+	}
+	if rapid.IntRange(0, 11).Draw(t, "tls_origin") == 0 {
+		c.TLSOrigin = true
+		for i := range c.Exchanges {
+			c.Exchanges[i].Form, c.Exchanges[i].Scheme = "absolute", "https"
+			// an upload the client holds back until it has the response is a
+			// dimension of its own; it is not combined with this one
+			c.Exchanges[i].Early = false
+		}
+		for k := range c.Others {
+			for i := range c.Others[k].Exchanges {
+				c.Others[k].Exchanges[i].Form, c.Others[k].Exchanges[i].Scheme = "absolute", "https"
+			}
+		}
+	}
 	return c
 }
 
@@ -488,8 +551,28 @@ func sha(b []byte) string {
 }
 
 func shape(e *Exchange) string {
+	if e.Scheme == "https" {
+		return "https-absolute-form-target"
+	}
 	if e.Gzip {
 		return "gzip-not-offered-by-client"
+	}
+	return "any"
+}
+
+// shapeAt is the shape of exchange i as part of its script: what precedes it
+// on the connection and what the client does around it belong to the shape.
+func shapeAt(c *Sub, i int) string {
+	e := &c.Exchanges[i]
+	switch {
+	case e.Scheme == "https":
+		return shape(e)
+	case i > 0 && c.Exchanges[i-1].ResTEBodiless:
+		return "after-bodiless-response-announcing-chunked"
+	case shape(e) != "any":
+		return shape(e)
+	case c.HalfClose && i == len(c.Exchanges)-1:
+		return "client-half-closed-after-last-request"
 	}
 	return "any"
 }
@@ -522,18 +605,31 @@ func lookup(subs []Sub, id string) *Exchange {
 }
 
 func runOnce(c Case, T time.Duration) (v kit.Verdict) {
-	subs := append([]Sub{{Exchanges: c.Exchanges, Mode: c.Mode, Batch: c.Batch}}, c.Others...)
-	origin := netkit.NewOrigin(func(r *netkit.ReqLog) netkit.Script {
+	subs := append([]Sub{{Exchanges: c.Exchanges, Mode: c.Mode, Batch: c.Batch, HalfClose: c.HalfClose}}, c.Others...)
+	handler := func(r *netkit.ReqLog) netkit.Script {
 		e := lookup(subs, r.Header.Get("X-Verif-Id"))
 		if e == nil {
 			return netkit.Script{Raw: []byte("HTTP/1.1 500 Internal Server Error\r\nX-Verif-Origin: unknown-id\r\nContent-Length: 0\r\n\r\n"), CutAt: -1}
 		}
-		sc := netkit.Script{Raw: e.wireResponse(), CutAt: -1}
+		sc := netkit.Script{Raw: e.wireResponse(), CutAt: -1, Delay: time.Duration(e.DelayMs) * time.Millisecond}
 		if e.ResClose || e.ResFrame == "close" || e.ResHTTP10 {
 			sc.After = "close"
 		}
 		return sc
-	})
+	}
+	var origin *netkit.Origin
+	if c.TLSOrigin {
+		var names []string
+		for _, h := range hosts {
+			if name, _, err := net.SplitHostPort(h); err == nil {
+				h = name
+			}
+			names = append(names, strings.ToLower(h))
+		}
+		origin = netkit.NewTLSOrigin(netkit.ServerTLS(names...), handler)
+	} else {
+		origin = netkit.NewOrigin(handler)
+	}
 	origin.Early = func(r *netkit.ReqLog) *netkit.Script {
 		e := lookup(subs, r.Header.Get("X-Verif-Id"))
 		if e == nil || !e.Early {
@@ -549,6 +645,11 @@ func runOnce(c Case, T time.Duration) (v kit.Verdict) {
 	dialer := &netkit.Dialer{Route: func(string) string { return origin.Addr }}
 	p := martian.NewProxy()
 	p.SetTimeout(60 * time.Second)
+	if c.TLSOrigin {
+		// the proxy's transport has to trust the authority that signed the
+		// origin's certificate (the default one uses the system roots)
+		netkit.UpstreamTLS(p)
+	}
 	p.SetDial(dialer.Dial)
 	var wrap func(net.Listener) net.Listener
 	if c.Shaped {
@@ -645,6 +746,11 @@ func runConn(k int, c Sub, proxyAddr string, T time.Duration) (v kit.Verdict, re
 				wmu.Unlock()
 				return
 			}
+			if c.HalfClose && i == n-1 {
+				if tc, ok := cl.Conn.(*net.TCPConn); ok {
+					tc.CloseWrite()
+				}
+			}
 		}
 	}
 	readRange := func(lo, hi int) bool {
@@ -692,7 +798,7 @@ func runConn(k int, c Sub, proxyAddr string, T time.Duration) (v kit.Verdict, re
 			if netkit.IsTimeout(g.err) {
 				class = "timeout"
 			}
-			v.Addf("C01/response/"+shape(e)+"/"+class, "response %d of %d (%s %s, origin framing %s, mode %s): %v", i, n, e.Method, e.Target, e.ResFrame, c.Mode, g.err)
+			v.Addf("C01/response/"+shapeAt(&c, i)+"/"+class, "response %d of %d (%s %s, origin framing %s, mode %s): %v", i, n, e.Method, e.Target, e.ResFrame, c.Mode, g.err)
 			break
 		}
 		r := g.res
@@ -700,8 +806,22 @@ func runConn(k int, c Sub, proxyAddr string, T time.Duration) (v kit.Verdict, re
 			continue // the transport may report the aborted upload instead; C03's territory
 		}
 		if r.Status != e.Status {
-			v.Addf("C01/response/"+shape(e)+"/status-differs", "response %d: status %d, origin sent %d", i, r.Status, e.Status)
+			v.Addf("C01/response/"+shapeAt(&c, i)+"/status-differs", "response %d: status %d, origin sent %d (headers %v)", i, r.Status, e.Status, r.Header)
 			break
+		}
+		// a HEAD response's Content-Length is not framing but what the origin says
+		// about the representation: an end-to-end value like any other
+		if e.Method == "HEAD" && e.Status != 204 && e.Status != 304 && e.ResFrame == "cl" && r.CL != int64(e.ResSize) {
+			v.Addf("C01/response/head-with-content-length/content-length-differs", "response %d (HEAD): Content-Length %d (header %q), origin sent %d", i, r.CL, r.Header["Content-Length"], e.ResSize)
+		}
+		// neither side asked to close: the response must not tell the client that
+		// the connection ends here (a client that believes it cannot use it again)
+		if !e.closeMarked() && r.Close {
+			sh := shape(e)
+			if e.headNoLength() {
+				sh = "head-response-without-length"
+			}
+			v.Addf("C01/keepalive/"+sh+"/close-announced", "response %d (%s, status %d, origin framing %s): carries Connection: close although neither the client nor the origin asked to close", i, e.Method, e.Status, e.ResFrame)
 		}
 		for name, want := range wantHeaders(e.ResHeaders) {
 			if !sameValues(r.Header[name], want) {
@@ -734,7 +854,11 @@ func runConn(k int, c Sub, proxyAddr string, T time.Duration) (v kit.Verdict, re
 	if len(v) == 0 && last.closeMarked() {
 		stray, eof, err := cl.ExpectEOF(T)
 		if len(stray) > 0 {
-			v.Addf("C01/close/"+shape(last)+"/stray-bytes-after-last-response", "%d unexpected bytes after the last response: %q", len(stray), trunc(stray, 80))
+			sh := shape(last)
+			if sh == "any" && last.ResTEBodiless {
+				sh = "bodiless-response-announcing-chunked"
+			}
+			v.Addf("C01/close/"+sh+"/stray-bytes-after-last-response", "%d unexpected bytes after the last response: %q", len(stray), trunc(stray, 80))
 		} else if !eof {
 			class := "not-closed"
 			if netkit.IsTimeout(err) {
@@ -887,6 +1011,27 @@ func classes(c Case) []string {
 		if e.Early {
 			flags["early-reply"] = true
 		}
+		if e.ResTEBodiless {
+			flags["bodiless-response-announcing-chunked"] = true
+		}
+		if e.headNoLength() {
+			flags["head-response-without-length"] = true
+		}
+		if e.Method == "HEAD" && e.Status != 204 && e.Status != 304 && e.ResFrame == "cl" && e.ResSize > 0 {
+			flags["head-response-with-content-length"] = true
+		}
+		if e.DelayMs > 0 {
+			flags["slow-origin"] = true
+		}
+	}
+	if c.HalfClose {
+		cl = append(cl, "client-half-close")
+		if c.Exchanges[len(c.Exchanges)-1].DelayMs > 0 {
+			cl = append(cl, "client-half-close+slow-origin")
+		}
+	}
+	if c.TLSOrigin {
+		cl = append(cl, "https-absolute-form-target")
 	}
 	for k := range flags {
 		cl = append(cl, k)
@@ -896,7 +1041,7 @@ func classes(c Case) []string {
 
 var propRelay = &kit.Prop[Case]{
 	ID: "C01", Name: "relay",
-	Rule: "scripts of 1..N exchanges on one client connection (methods x target forms x header multisets x request framing/size x origin status/framing/size, sequential, pipelined or batched; only the last may ask to close; a probe is appended otherwise) through martian.NewProxy() to a raw scripted origin; non-trivial = >=2 exchanges, or a body >= 4097 bytes, or chunked/close-delimited framing, or a repeated header name",
+	Rule: "scripts of 1..N exchanges on one client connection (methods x target forms x header multisets x request framing/size x origin status/framing/size, sequential, pipelined or batched; only the last may ask to close; a probe is appended otherwise; HEAD/304 responses with, without or instead of a length announcing chunked; origins that take 1-30 ms; optionally the client half-closes after its last request; optionally every target is absolute-form https to a TLS origin) through martian.NewProxy() to a raw scripted origin; non-trivial = >=2 exchanges, or a body >= 4097 bytes, or chunked/close-delimited framing, or a repeated header name",
 	Gen:  genCase, Run: run, NonTrivial: nontrivial, Classes: classes, Journal: true,
 	Gates: map[string]float64{"multi-exchange": 0.40, "pipelined": 0.15, "concurrent-connections": 0.15, "chunked-request": 0.10, "chunked-response": 0.2},
 }
